@@ -158,6 +158,7 @@ type CliLeaf struct {
 type CliObs struct {
 	Style  string    `json:"style"` // flags proto file
 	Spec   int       `json:"spec"`
+	Enc    string    `json:"enc,omitempty"` // request encoding of a proto style ("" = target prefix + elem path)
 	Args   CliArgs   `json:"args"`
 	OK     bool      `json:"ok"`
 	Leaves []CliLeaf `json:"leaves,omitempty"`
@@ -188,6 +189,14 @@ type Obs struct {
 	Seen    []SeenObs         `json:"seen"`
 	Files   map[string]string `json:"files,omitempty"`
 	Protos  map[string]int    `json:"protos,omitempty"` // proto text -> index into Case.Cli
+	Wire    map[string]WireReq `json:"wire,omitempty"`  // proto text -> the prefix and path it spells (its encoding)
+}
+
+// WireReq is the SubscriptionList prefix and (single) path a rendered proto
+// text carries, in the encoding it was written in.
+type WireReq struct {
+	Prefix GPath `json:"pre"`
+	Path   GPath `json:"path"`
 }
 
 // ---------------------------------------------------------------------------
@@ -564,7 +573,13 @@ func gallina(n *vh.Names, c *Case, addrOf map[string]string) string {
 	for i, k := range pk {
 		ps[i] = fmt.Sprintf("(%s, %s)", p.str(k), p.cliReq(c.Cli[c.Obs.Protos[k]]))
 	}
-	fmt.Fprintf(&b, " %s\n %s\n", vh.List(fs), vh.List(ps))
+	ws := make([]string, 0, len(pk))
+	for _, k := range pk {
+		if w, ok := c.Obs.Wire[k]; ok {
+			ws = append(ws, fmt.Sprintf("(%s, Cq %s %s)", p.str(k), p.gpath(w.Prefix), p.gpath(w.Path)))
+		}
+	}
+	fmt.Fprintf(&b, " %s\n %s\n %s\n", vh.List(fs), vh.List(ps), vh.List(ws))
 	// cli runs
 	runs := make([]string, len(c.Obs.Cli))
 	for i, r := range c.Obs.Cli {
